@@ -1,6 +1,6 @@
 import FlexVerif.Driver.Case
 import FlexVerif.Runtime.Match
-import FlexVerif.Runtime.Buf
+import FlexVerif.Runtime.BufTable
 namespace FlexVerif
 
 def parseOp (w : String) : Option Op :=
@@ -76,21 +76,6 @@ def cmdTrace (c : Case) (useSpec : Bool) : IO UInt32 := do
   return 0
 
 /-! ### the buffer-level machine (Runtime/Buf.lean) on the emitted tables -/
-
-/-- the emitted automaton as the match loop of a scanner without REJECT sees it -/
-def tableDFA (T : Tables) (interactive : Bool) : Buf.DFA DState where
-  start := fun bol => T.startState 0 bol
-  step := fun s c => match T.step s c with
-    | .jam => none
-    | .bad => none
-    | s' => some s'
-  accept := fun s => match T.label s with
-    | some (r :: _) => some r.toNat
-    | _ => none
-  dead := fun s => interactive &&
-    (List.range T.csize).all fun c => match T.step s (UInt8.ofNat c) with
-      | .jam => true
-      | _ => false
 
 /-- `bufrun`: the sizes of the read requests and the tokens, from buffer size, read schedule and
     source of the case file -/
